@@ -1295,3 +1295,10 @@ func (t *Term) Scramble(draw func(n int) int) {
 	t.pendingWrap = false
 	t.lastPrintValid = false
 }
+
+// PendingWrap reports the deferred-wrap state (a glyph was printed in the last
+// column and the cursor has not moved since).
+func (t *Term) PendingWrap() bool { return t.pendingWrap }
+
+// ScrollRegion returns the scroll region (0-based, inclusive).
+func (t *Term) ScrollRegion() (int, int) { return t.top, t.bot }
